@@ -18,7 +18,11 @@ PROP = dict(
           "|mantissa*factor - |v|| <= 1/2 unit of the last printed digit * factor (+ |v|*n*2^-53*(1+2^-40), n = number of float "
           "roundings in v/float64(factor): 0 for powers of two, 1 for exactly representable factors, 2 otherwise); mantissa >= 1 "
           "must be < 1000 (decimal) / < 1024 (binary) unless the prefix is the largest, and has exactly four significant digits "
-          "when < 1000 (d.ddd, dd.dd, ddd.d; binary [1000,1024) prints dddd.d); mantissa < 1 only with the smallest prefix and then "
+          "when < 1000 (d.ddd, dd.dd, ddd.d; binary [1000,1024) prints dddd.d); the four digits are digits of the value: a form "
+          "with fewer decimals is accepted only once the finer one would round out of its range, i.e. dd.dd needs |v| >= 9.9995*factor, "
+          "ddd.d needs |v| >= 99.995*factor, and a prefix other than the smallest needs |v| >= 0.99995*factor, where each boundary "
+          "is the exact rational or the float64 nearest to it, whichever is lower (no other tolerance; this is what makes the check "
+          "ulp-exact at every threshold); mantissa < 1 only with the smallest prefix and then "
           ">= 3 significant digits whenever |v| >= 1e-8 of that prefix. CommonScale(vs) must equal CommonScale({smallest non-zero "
           "|v|}), Format(min) must pass the predicate above, and every value formatted with the shared scale must use the same "
           "prefix and decimals, be correctly rounded, keep its sign and show >= 3 significant digits. ClassOf(u) == Binary iff "
@@ -41,6 +45,8 @@ PROP = dict(
         "the prefix symbols mean their standard SI / IEC factors and the supported range is T..n (decimal) and Ti..none (binary), as documented in benchunit/scale.go",
         "binary mantissas in [1000,1024) are expected as dddd.d (five significant digits), reading 'four significant digits' as a minimum there",
         "only finite float64 inputs are in scope; -0 may print with or without a sign",
+        "a float64 that is the nearest float to a decimal rounding boundary (e.g. the float written 999.95, which is slightly below 999.95) may be treated as being on the boundary, as the property's own example does",
+        "multisets for CommonScale are generated with magnitudes <= 1e299: with a sub-unit prefix (m, µ, n) chosen from a small value, Scaler.Format of a value above MaxFloat64*factor divides to +Inf and prints e.g. \"+Infm\" (finding C10-a, minimal input CommonScale({0.5, 1e306}, Decimal).Format(1e306)); the generator includes such multisets, and the check books them as known hits, only when C10-a is listed in known_findings.json - otherwise that output is reported as a violation if reached (replay/fuzz)",
         "refbench.UnitTokens is a correct reading of the unit grammar ('/' to the denominator, '*' back to the numerator, '-' and white space keep the side)",
     ],
     units=[
